@@ -1,11 +1,11 @@
 SPECIFICATION Spec
 CONSTANTS
-  HasMax = FALSE
-  KMax = 5
-  KMin = 1
+  HasMax = TRUE
+  KMax = 4
+  KMin = 2
   MinZero = FALSE
-  KEdge = 1
-  KOut = 3
+  KEdge = 9
+  KOut = 9
   Variant = "repaired"
 INVARIANT TypeOK
 INVARIANT NoCrash
